@@ -47,5 +47,7 @@ func (s *slice[T]) Len() int {
 func (s *slice[T]) Slice() []T {
 	s.lock.RLock()
 	defer s.lock.RUnlock()
-	return s.data
+	// The result shares the backing array, but not its spare capacity: an append to the result must not write into the
+	// slots that the next Append of this slice is going to use
+	return s.data[:len(s.data):len(s.data)]
 }
